@@ -320,3 +320,31 @@ M('head-restore-reads-tmp', ['C14'], RL, "                    with open(head) as
 M('head-missing-means-end', ['C14'], RL, "                pos = ('start', 0)", "                pos = ('end', 0)", ['C14.R3'])
 M('close-saves-after-closing', ['C14'], RL, "        with self.lock:\n            self.write_head()\n\n            if self.write_file:\n                self.write_file.close()\n\n            if self.read_file:\n                self.read_file.close()\n", "        with self.lock:\n            if self.write_file:\n                self.write_file.close()\n\n            if self.read_file:\n                self.read_file.close()\n\n            self.write_head()\n", ['C14.R4'])
 M('write_head-tell-outside-lock', ['C14'], RL, "        if (head := self.head) is not None:\n            with self.lock:\n                if pos is None:\n                    pos = self.tell()\n", "        if (head := self.head) is not None:\n            if pos is None:\n                pos = self.tell(False)\n            with self.lock:\n", ['C14.R4'])
+
+# -------------------------------------------------------------------------------------------------------- C09 / C12
+
+M('writer-swaps-hw', ['C09'], MQ, "xtra = {'img': [frame.height, frame.width, frame.format, enc]}", "xtra = {'img': [frame.width, frame.height, frame.format, enc]}", ['C09.R1'])
+M('reader-enc-from-format-slot', ['C09'], MQ, "                if xtra[3] == 'raw' else", "                if xtra[2] == 'raw' else", ['C09.R1'])
+M('reader-from_jpg-swapped', ['C09'], MQ, "Frame.from_jpg(msg[1], data, xtra[0], xtra[1], xtra[2])", "Frame.from_jpg(msg[1], data, xtra[1], xtra[0], xtra[2])", ['C09.R1'])
+M('reader-reshape-swapped', ['C09'], MQ, "else (xtra[0], xtra[1], 3)), data, xtra[2])", "else (xtra[1], xtra[0], 3)), data, xtra[2])", ['C09.R1'])
+M('writer-enc-literal', ['C09'], MQ, "enc  = 'jpg' if (do_jpg := frame.has_jpg if outs_jpg is None else outs_jpg) else 'raw'", "enc  = 'jpeg' if (do_jpg := frame.has_jpg if outs_jpg is None else outs_jpg) else 'raw'", ['C09.R1', 'C09.R3'])
+M('reader-dataidx-wrong', ['C09'], MQ, "            dataidx = 2 if xtra else 1", "            dataidx = 1 if xtra else 1", ['C09.R2'])
+M('writer-data-before-img', ['C09'], MQ, "msg  = [xtra, img] if data is None else [xtra, img, data]", "msg  = [xtra, img] if data is None else [xtra, data, img]", ['C09.R2'])
+M('writer-data-always', ['C09'], MQ, "data = json_dumps(frame.data, separators=(',', ':')).encode() if frame.data else None", "data = json_dumps(frame.data, separators=(',', ':')).encode() if frame.data is not None else None", ['C09.R2'])
+M('writer-ignores-outs_jpg', ['C09'], MQ, "(do_jpg := frame.has_jpg if outs_jpg is None else outs_jpg)", "(do_jpg := frame.has_jpg if outs_jpg is None else frame.has_jpg)", ['C09.R3'])
+M('writer-jpg-branch-sends-raw', ['C09'], MQ, "img  = frame.jpg if do_jpg else bytearray(memoryview(frame.image))", "img  = bytearray(memoryview(frame.image)) if do_jpg else frame.jpg", ['C09.R3'])
+M('image-no-shape-assert', ['C09'], FR, "            assert image.shape == self.__shapef[0], f'jpg decoded shape {image.shape} does not match specified shape {self.__shapef[0]}'\n", "", ['C09.R4'])
+M('from_blob-declared-shape-swapped', ['C09'], FR, "frame.__shapef = ((height, width) if format == 'GRAY' else (height, width, 3), format or 'BGR')", "frame.__shapef = ((width, height) if format == 'GRAY' else (width, height, 3), format or 'BGR')", ['C09.R4'])
+
+M('cli-step-1', ['C12'], CLI, "(max_port := max_port + 2)", "(max_port := max_port + 1)", ['C12.R1'])
+M('sender-pull-plus-2', ['C12'], Z, "                pull_addr  = f'{host}:{port + 1}'", "                pull_addr  = f'{host}:{port + 2}'", ['C12.R1'])
+M('receiver-push-same-port', ['C12'], Z, "                push_addr  = f'{host}:{port + 1}'", "                push_addr  = f'{host}:{port}'", ['C12.R1'])
+M('cli-default-port-literal', ['C12'], CLI, 'int((only_mq_addr(output[6:]).rsplit(":", 1) + [5550])[:2][1])', 'int((only_mq_addr(output[6:]).rsplit(":", 1) + [5500])[:2][1])', ['C12.R1'])
+M('cli-default-port-str', ['C12'], CLI, 'addr, port = (output[6:].rsplit(":", 1) + ["5550"])[:2]', 'addr, port = (output[6:].rsplit(":", 1) + ["5555"])[:2]', ['C12.R1'])
+M('cli-scan-first-only', ['C12'], CLI, "        for output in reversed(\n            outputs\n        ):  # reversed to leave the first output as default", "        for output in reversed(\n            outputs[:1]\n        ):  # reversed to leave the first output as default", ['C12.R1'])
+M('cli-init-port', ['C12'], CLI, "    max_port = 5548\n", "    max_port = 5540\n", ['C12.R1'])
+M('zmq-default-port-changed', ['C12'], Z, "TCP_DEFAULT_PORT      = 5550", "TCP_DEFAULT_PORT      = 5560", ['C12.R1'])
+M('cli-suffix-off-by-one', ['C12'], CLI, "sources[i] = new_source + source[len(id) :]", "sources[i] = new_source + source[len(id) + 1 :]", ['C12.R2'])
+M('cli-suffix-dropped', ['C12'], CLI, "sources[i] = id_source + source[len(id) :]", "sources[i] = id_source", ['C12.R2'])
+M('only_mq_addr-forgets-bang', ['C12'], CLI, '            addr.find(";") & 0xFFFFFFFF,\n            addr.find("!") & 0xFFFFFFFF,', '            addr.find(";") & 0xFFFFFFFF,', ['C12.R3'])
+M('parse_options-other-sep', ['C12'], F, "text, *opts = [s.strip() for s in text.split('!')]", "text, *opts = [s.strip() for s in text.split('|')]", ['C12.R3'])
